@@ -87,6 +87,17 @@ class PathValues:
                     for t, v in zip(st.targets[0].elts, vals):
                         self.env[pseudo(t)] = v
                         self.events.append(('assign', pseudo(t), v))
+                elif isinstance(st, ast.Assign) and len(st.targets) == 1 and isinstance(st.targets[0], (ast.Tuple, ast.List)) and \
+                        not isinstance(st.value, (ast.Tuple, ast.List)) and all(isinstance(t, ast.Name) for t in st.targets[0].elts) and \
+                        isinstance(st.value, (ast.Name, ast.Attribute, ast.Subscript)):
+                    # unpacking of a sequence held by a name: `name, = names`  ->  name = names[0]
+                    v = subst(st.value, self.env)
+                    for i_, t in enumerate(st.targets[0].elts):
+                        e_ = ast.Subscript(value=v, slice=ast.Constant(value=i_), ctx=ast.Load())
+                        ast.copy_location(e_, st)
+                        ast.fix_missing_locations(e_)
+                        self.env[t.id] = e_
+                        self.events.append(('assign', t.id, e_))
                 elif isinstance(st, ast.AnnAssign) and st.value is not None and pseudo(st.target) is not None:
                     self.env[pseudo(st.target)] = subst(st.value, self.env)
                 else:
